@@ -117,6 +117,16 @@ int main(void) {
                 bool r = qhashtbl_put(t, k, v, nv); int e = errno;
                 scribble_free(k, nk + 1); scribble_free(v, nv);
                 if (r) printf("true"); else printf("fail %s", ename(e));
+            } else if (!strcmp(op, "putown")) {
+                /* put <key> <value> where the key argument is the table's own copy of that key, as a walk with newmem=false hands it
+                   out (updating values while looking at the entries); if the key is not stored, an ordinary put */
+                size_t nk = unhex(a1, b1), nv = unhex(a2, b2);
+                char *k = dupstr(b1, nk); void *v = dupbuf(b2, nv); const char *own = NULL;
+                qhashtbl_obj_t o; memset(&o, 0, sizeof o);
+                while (qhashtbl_getnext(t, &o, false)) if (!strcmp(o.name, k)) { own = o.name; break; }
+                bool r = qhashtbl_put(t, own ? own : k, v, nv); int e = errno;
+                scribble_free(k, nk + 1); scribble_free(v, nv);
+                if (r) printf("true"); else printf("fail %s", ename(e));
             } else if (!strcmp(op, "puthuge")) {
                 /* a value whose copy cannot be allocated (SIZE_MAX/2 bytes; the allocation fails before anything is read): the put is
                    refused with ENOMEM and the table - this key's old value, the other keys, the count - is what it was */
